@@ -1165,7 +1165,9 @@ class DomainMapping(CanBehaveLikeAVariable[T], ABC):
             yield sources
             return
         is_condition = self._is_in_condition_position_
-        child_val = self._child_._evaluate__(sources, yield_when_false=self._yield_when_false_)
+        # the child provides the values to map, it is not a condition: rows that fail the child's own conditions (a
+        # predicate-form term or a sub-query) are not values of it, whether or not false results are wanted from here.
+        child_val = self._child_._evaluate__(sources, yield_when_false=False)
         for child_v in child_val:
             for v in self._apply_mapping_(child_v[self._child_._id_]):
                 values = copy(child_v)
